@@ -426,7 +426,7 @@ func (ep *Endpoint) performWrite(w *World, o *op, now time.Duration) {
 		pr.IP = ip
 		pr.L4 = codec.DecodeL4(ip)
 	}
-	if o.fault != nil && o.fault.Class == "fatal" {
+	if o.fault != nil && (o.fault.Class == "fatal" || o.fault.Class == "slowfatal") {
 		pr.Failed = true
 		w.stat("fault.write.fatal")
 		w.fire(o, "fatal")
